@@ -314,9 +314,11 @@ where
                     return Err(RunError::Transport(e))
                 }
 
-                Selected::Transport(Ok(_))
-                | Selected::Handle(_)
-                | Selected::AbortFunctionCall(_) => {}
+                // The call must be marked as aborted, or else it would be reported again
+                // immediately and this loop would never yield.
+                Selected::AbortFunctionCall(serial) => self.function_calls.abort(serial),
+
+                Selected::Transport(Ok(_)) | Selected::Handle(_) => {}
             }
         }
 
